@@ -29,10 +29,14 @@ fn seed_of(k: &str) -> [u8; 32] {
 fn mint_row(c: &Value) -> Vec<u8> {
     let subj = seed_of(c["subj"].as_str().unwrap());
     let signer = seed_of(c["signer"].as_str().unwrap());
+    let san = c["san"].as_str().unwrap();
     let spec = CertSpec {
         subject_seed: subj,
         signer_seed: if c["signer"] == c["subj"] { None } else { Some(signer) },
-        names: vec![c["san"].as_str().unwrap().to_owned()],
+        // the odd shapes carry the name the verifier will be asked about, in the wrong place
+        names: vec![if matches!(san, "absent" | "iponly" | "garbled") { "n1".to_owned() } else { san.to_owned() }],
+        san_kind: match san { "absent" => "absent", "iponly" => "iponly", "garbled" => "garbled", _ => "dns" },
+        decoy: match c["decoy"].as_str().unwrap_or("none") { "none" => None, k => Some(seed_of(k)) },
         validity: match c["validity"].as_str().unwrap() {
             "ok" => Validity::Ok,
             "expired" => Validity::Expired,
@@ -97,6 +101,12 @@ pub fn replay(a: &Args) -> i32 {
         if got.is_ok() != row["expect"].as_bool().unwrap() {
             bad(format!("verify_server_cert returned {got:?}"), row);
         }
+        if got.is_ok() {
+            let id = anemo::verif::direct::peer_id_from_certificate(&der);
+            if id != Ok(sim::peer_id_of(&seed_of(row["cert"]["subj"].as_str().unwrap()))) {
+                bad(format!("attributed identity {id:?} is not the certificate's key"), row);
+            }
+        }
     }
     // only Ed25519 is offered; client authentication is mandatory
     {
@@ -132,6 +142,8 @@ pub fn replay(a: &Args) -> i32 {
     // (b) + (c) handshakes on the fabric
     let adv_rows: Vec<Value> = tables["id_advdial"].as_array().unwrap().clone();
     let pair_rows: Vec<Value> = tables["id_pairs"].as_array().unwrap().clone();
+    let shape_rows: Vec<Value> = tables["id_advshape"].as_array().unwrap().clone();
+    let shape_stride = a.u64("shape_stride", 1) as usize;
     let stride = a.u64("stride", 1) as usize;
     let mm = mismatches.clone();
     let n_hs = Arc::new(Mutex::new(0u64));
@@ -200,6 +212,90 @@ pub fn replay(a: &Args) -> i32 {
             sim.sleep_ms(60).await;
             let _ = sim.net(l).disconnect(subj);
             sim.sleep_ms(20).await;
+        }
+        // certificate shapes and proofs a party without the key can always produce
+        let dialer = sim.add_node(NodeCfg { key: [43; 32], name: "n1".into(), alt: None, config: cfg.clone(), bind: None }).map_err(|e| e.to_string())?;
+        for (k, row) in shape_rows.iter().enumerate() {
+            if k % shape_stride != 0 {
+                continue;
+            }
+            *n_hs2.lock().unwrap() += 1;
+            let der = mint_row(&row["cert"]);
+            let chain = vec![CertificateDer::from(der)];
+            let subj = sim::peer_id_of(&seed_of(row["cert"]["subj"].as_str().unwrap()));
+            let want = row["expect"].as_bool().unwrap();
+            let scheme = adv::scheme_named(row["scheme"].as_str().unwrap());
+            let real_proof = row["proof"] != "junk";
+            if row["dir"] == "dial" {
+                let (ep, _) = adv::endpoint(&sim.run.fabric, None).map_err(|e| e.to_string())?;
+                let cc = if real_proof {
+                    adv::client_config(Some((chain, adv::ed_key_der(&seed_of(row["proof"].as_str().unwrap())))), None)
+                } else {
+                    adv::client_config_junk_proof(chain, scheme)
+                };
+                let connecting = ep.connect_with(cc, sim.addr(l1), "n1").map_err(|e| e.to_string())?;
+                // the connection is kept open until the listing has been looked at
+                let held = tokio::time::timeout(std::time::Duration::from_secs(5), async {
+                    let conn = connecting.await?;
+                    adv::dialer_wait_ack(&conn).await?;
+                    Ok::<_, anyhow::Error>(conn)
+                })
+                .await;
+                let established = matches!(held, Ok(Ok(_)));
+                sim.sleep_ms(30).await;
+                let listed = sim.net(l1).peers();
+                if established != want {
+                    bad(format!("adversary dial (shape): established={established} but the specification says accept={want}"), row);
+                } else if established && listed != vec![subj] {
+                    bad(format!("listener lists {:?}, not exactly the key in the certificate's SPKI", listed.iter().map(|p| sim.run.node_of(p)).collect::<Vec<_>>()), row);
+                } else if !established && !listed.is_empty() {
+                    bad("a refused dial left the listener listing a peer".into(), row);
+                }
+                drop(held);
+                ep.close(0u32.into(), b"");
+                sim.sleep_ms(60).await;
+                for p in sim.net(l1).peers() {
+                    let _ = sim.net(l1).disconnect(p);
+                }
+                sim.sleep_ms(20).await;
+            } else {
+                let sc = if real_proof {
+                    adv::server_config(chain, adv::ed_key_der(&seed_of(row["proof"].as_str().unwrap())))
+                } else {
+                    adv::server_config_junk_proof(chain, scheme)
+                };
+                let (ep, addr) = adv::endpoint(&sim.run.fabric, Some(sc)).map_err(|e| e.to_string())?;
+                let ep2 = ep.clone();
+                let acceptor = tokio::spawn(async move {
+                    let mut held = Vec::new();   // accepted connections stay open until the row is done
+                    while let Some(inc) = ep2.accept().await {
+                        if let Ok(conn) = inc.await {
+                            let _ = adv::listener_ack(&conn).await;
+                            held.push(conn);
+                        }
+                    }
+                });
+                let pin = match row["pin"].as_str().unwrap() { "none" => None, k => Some(sim::peer_id_of(&seed_of(k))) };
+                let r = match pin {
+                    Some(p) => sim.net(dialer).connect_with_peer_id(addr, p).await,
+                    None => sim.net(dialer).connect(addr).await,
+                };
+                sim.sleep_ms(20).await;
+                let listed = sim.net(dialer).peers();
+                match &r {
+                    Ok(p) if !want => bad(format!("honest dial of an adversary listener returned Ok({}) but the specification says refuse", sim.run.node_of(p)), row),
+                    Err(e) if want => bad(format!("honest dial of an adversary listener failed ({}) but the specification says accept", e.to_string().chars().take(80).collect::<String>()), row),
+                    Ok(p) if *p != subj || listed != vec![subj] => bad(format!("dial returned {} / lists {:?}, not the key in the certificate's SPKI", sim.run.node_of(p), listed.iter().map(|p| sim.run.node_of(p)).collect::<Vec<_>>()), row),
+                    Err(_) if !listed.is_empty() => bad("a failed dial left the dialer listing a peer".into(), row),
+                    _ => {}
+                }
+                acceptor.abort();
+                ep.close(0u32.into(), b"");
+                for p in sim.net(dialer).peers() {
+                    let _ = sim.net(dialer).disconnect(p);
+                }
+                sim.sleep_ms(60).await;
+            }
         }
         // no client certificate at all
         {
